@@ -4,6 +4,7 @@
 #include <fcntl.h>
 #include <signal.h>
 #include <sys/wait.h>
+#include <sys/time.h>
 #include <time.h>
 #include <cstdlib>
 #include <sstream>
@@ -186,6 +187,17 @@ static std::string classify_stderr(const std::string &e) {
 	}
 	return "";
 }
+// watchdog on consumed CPU time (a looping call burns it; a loaded machine does not), with a generous wall-clock backstop for a blocking call
+static void arm_watchdog(unsigned cpu_s) {
+	struct itimerval it; memset(&it, 0, sizeof it); it.it_value.tv_sec = cpu_s;
+	setitimer(ITIMER_VIRTUAL, &it, 0);
+	alarm(cpu_s * 30 + 60);
+}
+static void disarm_watchdog() {
+	struct itimerval it; memset(&it, 0, sizeof it);
+	setitimer(ITIMER_VIRTUAL, &it, 0);
+	alarm(0);
+}
 static Result exec_child(World &w, const Plan &p, unsigned timeout_s, std::string *errtext = 0) {
 	int rp[2], ep[2];
 	if (pipe(rp) || pipe(ep)) { perror("pipe"); exit(2); }
@@ -195,7 +207,7 @@ static Result exec_child(World &w, const Plan &p, unsigned timeout_s, std::strin
 	if (!pid) {
 		close(rp[0]); close(ep[0]);
 		dup2(ep[1], 2);
-		alarm(timeout_s);
+		arm_watchdog(timeout_s);
 		Stats st;
 		Result r = run_plan(w, p, false, st);
 		char hb[32]; snprintf(hb, sizeof hb, "%016llx", (unsigned long long) r.hash);
@@ -225,7 +237,7 @@ static Result exec_child(World &w, const Plan &p, unsigned timeout_s, std::strin
 		r.discard = kind == "D"; r.hash = strtoull(hb.c_str(), 0, 16);
 		return r;
 	}
-	if (WIFSIGNALED(status) && WTERMSIG(status) == SIGALRM) { r.sig = "hang"; r.detail = "call did not return within watchdog"; return r; }
+	if (WIFSIGNALED(status) && (WTERMSIG(status) == SIGALRM || WTERMSIG(status) == SIGVTALRM)) { r.sig = "hang"; r.detail = "call did not return within watchdog"; return r; }
 	std::string c = classify_stderr(err);
 	if (c.empty()) {
 		char b[64];
@@ -246,7 +258,7 @@ struct Shrinker {
 	bool fails(const Plan &p) {
 		if (execs >= budget) return false;
 		++execs;
-		Result r = exec_child(w, p, 2);
+		Result r = exec_child(w, p, 1);
 		return r.sig == sig;
 	}
 	bool ddmin_ops(Plan &p) {
@@ -392,7 +404,7 @@ static bool flag(int argc, char **argv, const char *name) {
 
 static int finish_violation(World &w, Plan &p, const Result &first, const char *out, unsigned budget) {
 	// gate 1: same plan twice gives same signature and hash
-	Result r1 = exec_child(w, p, 12), r2 = exec_child(w, p, 12);
+	Result r1 = exec_child(w, p, 4), r2 = exec_child(w, p, 4);
 	if (r1.sig != r2.sig || r1.hash != r2.hash || r1.sig.empty()) {
 		printf("NONDET first=%s again=%s/%s hash %016llx/%016llx\n", first.sig.c_str(), r1.sig.c_str(), r2.sig.c_str(),
 		       (unsigned long long) r1.hash, (unsigned long long) r2.hash);
@@ -401,7 +413,7 @@ static int finish_violation(World &w, Plan &p, const Result &first, const char *
 	size_t ops0 = p.ops.size();
 	Shrinker sh(w, r1.sig, budget);
 	sh.run(p);
-	Result rf = exec_child(w, p, 12);
+	Result rf = exec_child(w, p, 4);
 	if (rf.sig != r1.sig) { printf("NONDET shrunk plan lost signature\n"); return 2; }
 	p.expect = rf.sig;
 	char hb[32]; snprintf(hb, sizeof hb, "%016llx", (unsigned long long) rf.hash); p.hash = hb;
@@ -432,17 +444,17 @@ int sim_main(int argc, char **argv) {
 		uint64_t stride = strtoull(arg(argc, argv, "--stride", "1"), 0, 0);
 		double budget = atof(arg(argc, argv, "--budget-s", "0"));
 		bool hashes = flag(argc, argv, "--hashes");
-		signal(SIGALRM, on_alarm);
+		signal(SIGALRM, on_alarm); signal(SIGVTALRM, on_alarm);
 		Stats st; uint64_t runs = 0, disc = 0, viol = 0, events = 0;
 		double t0 = now_s();
 		uint64_t i = from;
 		for (uint64_t k = 0; k < count; ++k, i += stride) {
 			if (budget > 0 && (k & 7) == 0 && now_s() - t0 > budget) break;
 			printf("S %llu\n", (unsigned long long) i);
-			alarm(10);
+			arm_watchdog(4);
 			Plan p = make_plan(w, base, i, tier);
 			Result r = run_plan(w, p, false, st);
-			alarm(0);
+			disarm_watchdog();
 			++runs; events += r.events;
 			if (r.discard) { ++disc; st.hit("discard:" + r.detail); }
 			if (!r.sig.empty()) { printf("V %llu %s\n", (unsigned long long) i, r.sig.c_str()); ++viol; }
@@ -484,7 +496,7 @@ int sim_main(int argc, char **argv) {
 			// crashing plan: run it once more in a child that prints every event as it happens
 			fflush(stdout);
 			pid_t pid = fork();
-			if (!pid) { g_stream = true; alarm(60); Stats st; int fd = open("/dev/null", O_WRONLY); dup2(fd, 2); run_plan(w, p, false, st); _exit(0); }
+			if (!pid) { g_stream = true; arm_watchdog(20); Stats st; int fd = open("/dev/null", O_WRONLY); dup2(fd, 2); run_plan(w, p, false, st); _exit(0); }
 			int status; waitpid(pid, &status, 0);
 		}
 		if (verbose) {
